@@ -61,7 +61,10 @@ def gen_game(rnd, depth=5):
 
 
 def fn(d, fmt):
-    return "[n \\in 0..%d |-> CASE %s [] OTHER -> %s]" % (len(d) - 1, " [] ".join("n = %d -> %s" % (k, fmt(v)) for k, v in d.items() if fmt(v) != fmt(None)), fmt(None))
+    arms = ["n = %d -> %s" % (k, fmt(v)) for k, v in d.items() if fmt(v) != fmt(None)]
+    if not arms:                      # every node takes the default value: CASE needs at least one arm
+        return "[n \\in 0..%d |-> %s]" % (len(d) - 1, fmt(None))
+    return "[n \\in 0..%d |-> CASE %s [] OTHER -> %s]" % (len(d) - 1, " [] ".join(arms), fmt(None))
 
 
 def write_game(idx, rnd, workdir):
